@@ -188,10 +188,15 @@ static int usedp (sexp lambda, sexp var, sexp x) {
 }
 
 int sexp_rest_unused_p (sexp lambda) {
-  sexp var;
+  sexp var, ls;
   for (var=sexp_lambda_params(lambda); sexp_pairp(var); var=sexp_cdr(var))
     ;
   if (sexp_nullp(var)) return 0;
+  /* a rest parameter listed in the set-vars is boxed by the procedure's
+     prologue even when simplification removed every assignment to it,
+     so its stack slot must exist */
+  for (ls=sexp_lambda_sv(lambda); sexp_pairp(ls); ls=sexp_cdr(ls))
+    if (sexp_car(ls) == var) return 0;
   return !usedp(lambda, var, sexp_lambda_body(lambda));
 }
 
